@@ -39,6 +39,7 @@ extern "C" {
 
 #include "upipe/ubase.h"
 #include "upipe/config.h"
+#include "upipe/uverif.h"
 
 #include <stdint.h>
 #include <stdbool.h>
@@ -97,6 +98,7 @@ static inline void type##_init(atomictype *obj, ctype value)                \
  */                                                                         \
 static inline void type##_store(atomictype *obj, ctype value)               \
 {                                                                           \
+    UVERIF_YIELD(UVERIF_ATOMIC_STORE, obj);                                 \
     __atomic_store(obj, &value, __ATOMIC_SEQ_CST);                          \
 }                                                                           \
 /** @This returns the value of the uatomic variable.                        \
@@ -107,6 +109,7 @@ static inline void type##_store(atomictype *obj, ctype value)               \
 static inline ctype type##_load(atomictype *obj)                            \
 {                                                                           \
     ctype ret;                                                              \
+    UVERIF_YIELD(UVERIF_ATOMIC_LOAD, obj);                                  \
     __atomic_load(obj, &ret, __ATOMIC_SEQ_CST);                             \
     return ret;                                                             \
 }                                                                           \
@@ -122,6 +125,7 @@ static inline ctype type##_load(atomictype *obj)                            \
 static inline bool type##_compare_exchange(atomictype *obj,                 \
                                            ctype *expected, ctype desired)  \
 {                                                                           \
+    UVERIF_YIELD(UVERIF_ATOMIC_CMPXCHG, obj);                               \
     return __atomic_compare_exchange(obj, expected, &desired, false,        \
                                      __ATOMIC_SEQ_CST, __ATOMIC_SEQ_CST);   \
 }                                                                           \
@@ -145,6 +149,7 @@ UATOMIC_TEMPLATE(uatomic_ptr, void *, uatomic_ptr_t)
 static inline uint32_t uatomic_fetch_add(uatomic_uint32_t *obj,
                                          uint32_t operand)
 {
+    UVERIF_YIELD(UVERIF_ATOMIC_FETCH_ADD, obj);
     return __atomic_fetch_add(obj, operand, __ATOMIC_SEQ_CST);
 }
 
@@ -157,6 +162,7 @@ static inline uint32_t uatomic_fetch_add(uatomic_uint32_t *obj,
 static inline uint32_t uatomic_fetch_sub(uatomic_uint32_t *obj,
                                          uint32_t operand)
 {
+    UVERIF_YIELD(UVERIF_ATOMIC_FETCH_SUB, obj);
     return __atomic_fetch_sub(obj, operand, __ATOMIC_SEQ_CST);
 }
 
